@@ -83,6 +83,11 @@ impl FrameAckQueue {
         }
     }
 
+    #[cfg(feature = "verif")]
+    pub fn verif_len(&self) -> usize {
+        self.entries.len()
+    }
+
     pub fn pop(&mut self) -> Option<frame::AckGroup> {
         if let Some(first_entry) = self.entries.pop_front() {
             debug_assert!(first_entry.bitfield & 0x00000001 != 0);
